@@ -40,6 +40,8 @@ MCStarts == {starts}
 MCMids == {mids}
 MCSpecials == {specials}
 MCExtendeds == {extendeds}
+MCPickAll(S) == S
+MCPickOne(S) == {{RandomElement(S)}}
 ====
 """
 CFG_GEN = """CONSTANTS
@@ -56,6 +58,7 @@ CFG_GEN = """CONSTANTS
   GMids <- MCMids
   GSpecials <- MCSpecials
   GExtendeds <- MCExtendeds
+  Pick <- {pick}
 SPECIFICATION GenSpec
 INVARIANT TypeOK
 INVARIANT CursorInRange
@@ -80,6 +83,7 @@ CFG_TRACE = """CONSTANTS
   GMids = {}
   GSpecials = {}
   GExtendeds = {}
+  Pick <- TracePick
 INIT TInit
 NEXT TNext
 INVARIANT TraceCursorInRange
@@ -140,7 +144,8 @@ def run_generator(name, cfg, simulate=None, seed=None, extra="", timeout=900, co
                       depths=_set(cfg["depths"]), opts=_set(cfg["opts"]), starts=_set(cfg["starts"]),
                       mids=_set(cfg.get("mids", [14])), specials=_set(cfg.get("specials", [7])),
                       extendeds=_set(cfg.get("extendeds", [(2, 1)])))
-  text = CFG_GEN.format(maxcaps=cfg["maxcaps"], maxrows=cfg["maxrows"], maxitems=cfg["maxitems"], extra=extra)
+  text = CFG_GEN.format(maxcaps=cfg["maxcaps"], maxrows=cfg["maxrows"], maxitems=cfg["maxitems"], extra=extra,
+                        pick="MCPickOne" if simulate else "MCPickAll")
   res = T.run_tlc("MC_Cea608Decoder", text, workers=workers, extra_files={"MC_Cea608Decoder.tla": mc}, timeout=timeout,
                   simulate=simulate, depth=150 if simulate else None, seed=seed, name="gen_" + name, coverage=coverage)
   if res.violated:
